@@ -416,7 +416,7 @@ func (s *Sim) resetDelivered(rec *ResetRec) {
 					continue
 				}
 				for rid, h := range c.Cache {
-					if h.Kind == 'e' || h.Deleted || h.iv == nil || h.iv.StartCut >= s.Cut {
+					if h.Kind == 'e' || h.Deleted || h.Ambiguous || h.iv == nil || h.iv.StartCut >= s.Cut {
 						continue
 					}
 					if _, vv := s.W.lookup(c.expandCID(rid)); vv == v && rec.Quiet {
@@ -702,7 +702,7 @@ func (s *Sim) certainHolders(v *Variant) []*Interval {
 				continue
 			}
 			h := c.Cache[rid]
-			if h == nil || h.Kind == 'e' || h.Deleted || h.iv == nil || h.iv.Closed {
+			if h == nil || h.Kind == 'e' || h.Deleted || h.Ambiguous || h.iv == nil || h.iv.Closed {
 				continue
 			}
 			name, _ := splitRID(c.expandCID(rid))
